@@ -123,6 +123,21 @@ def tsan_soak(ctx):
     ctx.cov['threadsanitizer_real_thread_soak'] = res
 
 
+def has_cross_thread_conflict(readable):
+    """does the trace contain two plain accesses to one location by different threads, at least one a write?
+    (only such traces say anything: a trace without them is trivially race free)"""
+    seen = {}
+    for l in readable:
+        w = l.split()
+        if w[0] == 'P':
+            seen.setdefault(w[3], set()).add((w[1], w[2]))
+    for loc, acc in seen.items():
+        tids = {t for t, _ in acc}
+        if len(tids) > 1 and any(rw == 'w' for _, rw in acc):
+            return True
+    return False
+
+
 def campaign(ctx, exe, scs, label, tot_orders, stats):
     info, res = analyse(ctx, exe, scs)
     for i, s in enumerate(scs):
@@ -130,7 +145,11 @@ def campaign(ctx, exe, scs, label, tot_orders, stats):
         stats['events'] += len(readable)
         for k, v in orders.items():
             tot_orders[k] = tot_orders.get(k, 0) + v
-        ctx.count((label, s['cfg'], tuple(s['sched'])), nontrivial=any(l.startswith('P') for l in readable))
+        conflicting = has_cross_thread_conflict(readable)
+        stats.setdefault('with_conflicting_plain_pair', {}).setdefault(s['cfg'].split()[0], 0)
+        if conflicting:
+            stats['with_conflicting_plain_pair'][s['cfg'].split()[0]] += 1
+        ctx.count((label, s['cfg'], tuple(s['sched'])), nontrivial=conflicting)
         if crashed:
             ctx.notes.append(f'tracer: {crashed[0]} on {s["cfg"]}')
             if not any(b.startswith('race tracer') for b in ctx.broken):
@@ -187,6 +206,10 @@ def run(ctx):
         campaign(ctx, build_tracer(ctx, fallback=True), half, 'fallback configuration -D__STDC_NO_ATOMICS__', tot_orders, stats)
         ctx.cov['fallback_configuration_scenarios'] = len(half)
     nev, clean = stats['events'], stats['clean']
+    ctx.cov['scenarios_with_cross_thread_conflicting_plain_accesses'] = stats.get('with_conflicting_plain_pair', {})
+    for kind in ('ring', 'mq', 'fibre', 'evq'):          # vacuity guard: each structure must actually hand data from one thread to another
+        if not ctx.violations and stats.get('with_conflicting_plain_pair', {}).get(kind, 0) < 5:
+            ctx.broken.append(f'traced executions of scenario kind {kind} contain (almost) no cross-thread conflicting plain accesses: the happens-before check would be vacuous')
     if ctx.tier == 'thorough' and not ctx.violations:
         tsan_soak(ctx)
     weak = {k: v for k, v in tot_orders.items() if k != 'seq_cst'}
